@@ -163,8 +163,8 @@ def build_file(ids, rng, style=None, encs=None, defect=None, defect_at=None, unk
                     applied = True
                 raw = text.encode(eff)
                 nlb = _nobom(nlc, eff)
-                indent = rng.choice([0, 0, 4, 4, 2, 1])
-                actual = indent if rng.random() < 0.8 else max(0, indent - 1)
+                indent = rng.choice([0, 0, 4, 4, 2, 1, 7, 12])
+                actual = indent if rng.random() < 0.75 else rng.choice([max(0, indent - 1), 0, 1])
                 if actual:
                     parts = raw.split(nlb)
                     lines = [p + nlb for p in parts[:-1]] + ([parts[-1]] if parts[-1] else [])
